@@ -40,7 +40,7 @@ def run(ck, progs, tier):
         ck.set_config(prog)
         run_d(ck, prog, "derive_test", 23, 60)
         if cfgname == "S":
-            run_d(ck, prog, "verif_shapes", 11, 48, cli_types=False)
+            run_d(ck, prog, "verif_shapes", 13, 48, cli_types=False)
     if "A" in progs:
         ck.set_config(progs["A"])
         check_cli_types(ck, progs["A"])
